@@ -239,7 +239,7 @@ def xattrs(node):
     """class-specific state the record does not carry"""
     d = node.__dict__ if hasattr(node, "__dict__") else {}
     return {"type": type(node).__name__, "src": d.get("_source_file"), "idx": repr(d.get("_idx")), "ref_point": d.get("ref_point"),
-            "rpp": repr(d.get("_ref_point_parsed")), "files": repr(d.get("filenames")), "pns": repr(d.get("persistent_namespace")),
+            "rpp": repr(d.get("_ref_point_parsed")), "files": repr([str(f) for f in d["filenames"]]) if "filenames" in d else "", "pns": repr(d.get("persistent_namespace")),
             "func": repr(d.get("_func")) if not callable(d.get("_func")) else getattr(d.get("_func"), "__qualname__", "?"),
             "keys": sorted(k for k in d if k not in ("_children", "_pyyaml_node")),
             "value": repr(node) if not isinstance(node, (list, dict, tuple)) else ""}
@@ -375,6 +375,8 @@ def mut_enabled(op, node):
             return len(cm) > 0 and [(n, id(c)) for n, c in cm] == [(n, id(c)) for n, c in bi]
         if op == "MutClear":
             return len(bi) > 0
+        if op == "MutSet" and isinstance(node, dict):
+            return all(n != "zz" for n, _ in bi)
     return True
 
 
@@ -407,6 +409,8 @@ def apply_edit(root, e):
         node.insert(e["pos"], 7)
     elif e["op"] == "del":
         del node[e["pos"]]
+    elif e["op"] == "reverse":
+        node.reverse()          # the inherited list.reverse: bypasses the child map
     else:
         raise ValueError(e["op"])
 
@@ -577,7 +581,7 @@ def replay_line(args):
     want_o = jfix(ln["o"])
     mut = ln["m"] if ln["m"]["a"] != "none" else None
     muts = [{"op": mut["a"], "side": mut["side"], "path": [dict(k) for k in mut["path"]]}] if mut else []
-    for variant in VARIANTS[ln["p"]]:
+    for variant in (VARIANTS[ln["p"]][-1:] if mut else VARIANTS[ln["p"]]):
         try:
             rec, bad = record_copy(case, variant, muts)
         except Exception as e:  # noqa  (the witness itself cannot be built: a renderer / model problem, never a verdict)
@@ -606,7 +610,8 @@ def replay_line(args):
             if bh:
                 bad = set(bad) | {"Behaves"}
         if bad or (ln.get("mm") and not mut):
-            res["bad"].append({"variant": variant, "bad": sorted(bad), "rec": rec, "case": case, "behaves": bh[:4], "muts": muts})
+            res["bad"].append({"variant": variant, "bad": sorted(bad), "rec": rec, "case": case, "behaves": bh[:4], "muts": muts,
+                               "sig": diff_sig(rec["orig"], rec["copy"])})
     return res
 
 
@@ -694,9 +699,11 @@ def gen_case(seed, tid):
             node = node_at(tree, p)
             n = len(node)
             r = rng.random()
-            if n >= 1 and r < 0.6:
+            if n >= 1 and r < 0.5:
                 e = {"op": "insert", "path": p, "pos": rng.randrange(n)}
-            elif n >= 1 and r < 0.75:
+            elif n >= 2 and r < 0.65:
+                e = {"op": "reverse", "path": p, "pos": 0}
+            elif n >= 1 and r < 0.78:
                 e = {"op": "del", "path": p, "pos": rng.randrange(n)}
             else:
                 e = {"op": "append", "path": p, "pos": 0}
@@ -772,7 +779,7 @@ def active_switches():
     off = set(x for x in os.environ.get("C19_SWITCHES_OFF", "").split(",") if x)
     try:
         for f in json.load(open(os.path.join(VERIF, "known_findings.json")))["findings"]:
-            if f.get("kind") == "fixed" and f.get("deviation") in SWITCHES and PROP in f.get("properties", []):
+            if f.get("kind") == "fixed" and f.get("deviation") in SWITCHES:
                 off.add(f["deviation"])
     except Exception:  # noqa
         pass
@@ -862,7 +869,7 @@ def describe(case, variant, muts):
     for e in case.get("edits", []):
         p = S._path_text(e["path"])
         txt.append({"append": f"tree.ayns.get_node({p!r}).append(7)", "insert": f"tree.ayns.get_node({p!r}).insert({e['pos']}, 7)",
-                    "del": f"del tree.ayns.get_node({p!r})[{e['pos']}]"}[e["op"]])
+                    "del": f"del tree.ayns.get_node({p!r})[{e['pos']}]", "reverse": f"tree.ayns.get_node({p!r}).reverse()"}[e["op"]])
     txt.append({"deepcopy": "cp = copy.deepcopy(tree)", "copy": "cp = copy.copy(tree)"}.get(variant, f"cp = pickle.loads(pickle.dumps(tree, protocol={variant[6:]}))"))
     for m in muts:
         txt.append(f"{m['op']} on {'tree' if m['side'] == 'orig' else 'cp'} at {S._path_text(m['path'])!r}")
@@ -886,6 +893,29 @@ def diff_lines(o, c, path=""):
         if k1 == k2:
             out.extend(diff_lines(a, b, path + "/" + S._key_text(k1)))
     return out
+
+
+def diff_sig(o, c):
+    """which fields differ anywhere between two projections (a coarse signature of a disagreement)"""
+    sig = set()
+
+    def walk(a, b):
+        for k in a:
+            if k in ("ch", "xo"):
+                continue
+            if a[k] != b.get(k):
+                sig.add(k)
+        if len(a["ch"]) != len(b["ch"]) or len(a["xo"]) != len(b["xo"]):
+            sig.add("shape")
+            return
+        for (k1, x), (k2, y) in zip(a["ch"], b["ch"]):
+            if k1 != k2:
+                sig.add("keys")
+            walk(x, y)
+        for x, y in zip(a["xo"], b["xo"]):
+            walk(x, y)
+    walk(o, c)
+    return sorted(sig)
 
 
 def write_replay(case, variant, muts, info):
@@ -955,7 +985,7 @@ def plan(tier):
     q = tier == "quick"
     P = [
         # parsed single documents: every tag, every node kind (the tree a Builder stage holds)
-        ("parsed", "C19_Parsed", "WholeRange", "parse", (1, 1), dict(protos=("pickle", "deepcopy")), False, 16 if q else 2),
+        ("parsed", "C19_ParsedQ" if q else "C19_Parsed", "WholeRange", "parse", (1, 1), dict(protos=("pickle", "deepcopy")), False, 16 if q else 2),
         # small parsed set: three protocols, both safe flags
         ("parsed-small", "C19_ParsedS", "WholeRange", "parse", (1, 1), dict(protos=("pickle", "deepcopy", "copy"), safes="{TRUE, FALSE}"), False, 4),
         # ... x every mutation of either side (action property Isolated)
@@ -1020,7 +1050,7 @@ def run(prop, tier, seed, replay, keep):
     pool = mp.get_context("fork").Pool(16, initializer=_init_worker, initargs=(universes, ctxs, REPO))
     try:
         # ---- direction B recording starts first (pure python, runs while TLC explores)
-        ntr = 600 if quick else 6000
+        ntr = 400 if quick else 6000
         per = 25
         rec_async = pool.map_async(_record_chunk, [(list(range(a, min(a + per, ntr + 1))), seed) for a in range(1, ntr + 1, per)])
 
@@ -1095,7 +1125,7 @@ def run(prop, tier, seed, replay, keep):
                     rec = b["rec"]
                     rec["tid"] = tid_next
                     pending.append({"tid": tid_next, "u": name, "case": b["case"], "variant": b["variant"], "muts": b["muts"], "bad": b["bad"],
-                                    "rec": rec, "behaves": b["behaves"]})
+                                    "rec": rec, "behaves": b["behaves"], "sig": b["sig"]})
                     tid_next += 1
             drift += nd
             cov["configs"].append({"universe": name, "docs_expr": docs, "documents": len(universes[docs]), "mode": mode, "stages": list(stages),
@@ -1118,12 +1148,18 @@ def run(prop, tier, seed, replay, keep):
 
         # ---- direction B + explanation of direction A's failing / mismatch cases: TLC on the as-is machine
         recs = [x for chunk in rec_async.get(timeout=tmo) for x in chunk]
-        if quick and len(pending) > 900:
-            keep_ = [p for p in pending if p["bad"]]
-            rest = [p for p in pending if not p["bad"]]
+        cap = 500 if quick else 6000
+        if len(pending) > cap:
+            # every copy that breaks a formula is judged; of those that agree (sent because the tree has a flag mismatch)
+            # a seeded sample; of many failing copies of one kind (same universe, same formulas) a seeded sample as well
             rnd = random.Random(seed)
-            rnd.shuffle(rest)
-            pending = keep_ + rest[:max(0, 900 - len(keep_))]
+            groups = {}
+            for p in pending:
+                groups.setdefault((p["u"], tuple(p["bad"]), proto_of(p["variant"]), tuple(p["sig"])), []).append(p)
+            pending, per_group = [], max(20, cap // max(1, len(groups)))
+            for g in sorted(groups):
+                rnd.shuffle(groups[g])
+                pending.extend(groups[g][:per_group])
         allrecs = [x["rec"] for x in recs] + [p["rec"] for p in pending]
         verdicts, st = validate_traces(allrecs, ON, "trace", workers=4, timeout=tmo)
         missing = [r["tid"] for r in allrecs if r["tid"] not in verdicts]
